@@ -1,8 +1,119 @@
 import AFV.Driver.Proto
+import AFV.Driver.LExprJson
+import AFV.Model.Network
+import AFV.Spec.Routes
 namespace AFV.Driver.C30
-open Lean AFV.Proto
+open Lean AFV AFV.Proto AFV.LExpr AFV.Network AFV.Routes
 
-/-- Handler for property C30 requests (stub: not implemented yet). -/
-def handle (_req : Json) : Json := err "unimplemented"
+private def topo? : String → Option Topology
+  | "mesh" => some .mesh
+  | "all_to_all" => some .allToAll
+  | _ => none
+
+private def rel? : String → Option Relevancy
+  | "irrelevant" => some .irrelevant
+  | "relevant" => some .relevant
+  | "partially_relevant" => some .partiallyRelevant
+  | _ => none
+
+private def perLoopFields (p : PerLoop) : List (String × LExpr) :=
+  [("total_cost", p.total), ("max_hops", p.maxHops), ("max_traffic", p.maxTraffic)]
+
+/-- Route enumeration for one (topology, loop kind, n, s): total number of hop-traversals, the
+per-link loads (computed once) and the longest route; then priced per volume. -/
+private def enumerate (t : Topology) (rel : Relevancy) (n s : Nat) : Option (Nat × List Nat × Nat) :=
+  match t, rel with
+  | .mesh, .relevant =>
+    let tr := meshUnicastTraversals n s
+    some (tr.length, linkLoads tr, meshLongestRoute n s)
+  | .mesh, .irrelevant =>
+    let tr := meshMulticastTraversals n s
+    some (tr.length, linkLoads tr, meshLongestRoute n s)
+  | .allToAll, .relevant =>
+    some ((a2aHops n).length, linkLoads (a2aUnicastTraversals n), a2aLongestRoute n)
+  | .allToAll, .irrelevant =>
+    some ((a2aHops n).length, linkLoads (a2aMulticastTraversals n), a2aLongestRoute n)
+  | _, .partiallyRelevant => none
+
+/-- ops:
+  {"op":"routes","topo":"mesh"|"all_to_all","rel":"relevant"|"irrelevant","n":N,"s":S,"vols":[[p,q],…]}
+      → {"spec":[[total,maxlink],…],"longest":L,"model":[[total_cost,max_hops,max_traffic],…],"branch":"…"}
+        spec = route enumeration (AFV.Routes), model = AFV.Network formulas evaluated at (n,s,v)
+  {"op":"model", same fields as "routes"}                   → {"model":[[total_cost,max_hops,max_traffic],…]|null}
+        the model's closed forms only (for fanouts where enumeration would be too long)
+  {"op":"eval","expr":E,"point":[[p,q],…]}                 → [p,q]
+  {"op":"equiv","a":E,"b":E}                               → bool   (native run of LExpr.equiv)
+  {"op":"equiv_model","topo":…,"rel":…,"field":"total_cost"|"max_hops"|"max_traffic","gen":E,"args":[En,Es,Ev]}
+                                                            → bool   (gen ≡ model field on these arguments)
+  {"op":"accumulate","calls":[[net,[p,q]],…]}              → {"returns":[[p,q],…],"state":[[net,[p,q]],…]} -/
+def handle (req : Json) : Json :=
+  match (field? req "op").bind getStr? with
+  | some "routes" =>
+    match (field? req "topo").bind getStr? |>.bind topo?, (field? req "rel").bind getStr? |>.bind rel?,
+          (field? req "n").bind getNat?, (field? req "s").bind getNat?, (field? req "vols").bind ratList? with
+    | some t, some rel, some n, some s, some vols =>
+      match enumerate t rel n s with
+      | none => Json.mkObj [("spec", Json.null), ("model", Json.null), ("branch", Json.str "not-implemented")]
+      | some (hops, loads, longest) =>
+        let spec := vols.map fun v =>
+          Json.arr #[ratToJson ((hops : Nat) * v), ratToJson (maxTraffic loads v)]
+        let model := vols.map fun v =>
+          match perLoop t rel (.sym 0) (.sym 1) (.sym 2) with
+          | some p =>
+            let ρ := assign [(n : Rat), (s : Rat), v]
+            Json.arr ((perLoopFields p).map fun f => ratToJson (eval ρ f.2)).toArray
+          | none => Json.null
+        let branch := (if t == .mesh then "mesh" else "a2a") ++ (if rel == .relevant then "-unicast" else "-multicast")
+          ++ (if n ≤ 1 then "-single" else "")
+        Json.mkObj [("spec", Json.arr spec.toArray), ("longest", ofNat longest),
+                    ("model", Json.arr model.toArray), ("branch", Json.str branch)]
+    | _, _, _, _, _ => err "malformed"
+  | some "model" =>
+    match (field? req "topo").bind getStr? |>.bind topo?, (field? req "rel").bind getStr? |>.bind rel?,
+          (field? req "n").bind getNat?, (field? req "s").bind getNat?, (field? req "vols").bind ratList? with
+    | some t, some rel, some n, some s, some vols =>
+      match perLoop t rel (.sym 0) (.sym 1) (.sym 2) with
+      | none => Json.mkObj [("model", Json.null)]
+      | some p =>
+        Json.mkObj [("model", Json.arr (vols.map fun v =>
+          let ρ := assign [(n : Rat), (s : Rat), v]
+          Json.arr ((perLoopFields p).map fun f => ratToJson (eval ρ f.2)).toArray).toArray)]
+    | _, _, _, _, _ => err "malformed"
+  | some "eval" =>
+    match (field? req "expr").bind lexprOfJson?, (field? req "point").bind ratList? with
+    | some e, some pt => ratToJson (eval (assign pt) e)
+    | _, _ => err "malformed"
+  | some "equiv" =>
+    match (field? req "a").bind lexprOfJson?, (field? req "b").bind lexprOfJson? with
+    | some a, some b => Json.bool (equiv a b)
+    | _, _ => err "malformed"
+  | some "equiv_model" =>
+    match (field? req "topo").bind getStr? |>.bind topo?, (field? req "rel").bind getStr? |>.bind rel?,
+          (field? req "field").bind getStr?, (field? req "gen").bind lexprOfJson?,
+          (field? req "args").bind getArr? |>.bind (fun a => a.toList.mapM lexprOfJson?) with
+    | some t, some rel, some fld, some gen, some [en, es, ev] =>
+      match perLoop t rel en es ev with
+      | none => err "not-implemented"
+      | some p =>
+        match (perLoopFields p).find? (fun f => f.1 == fld) with
+        | some f => Json.bool (equiv gen f.2)
+        | none => err "malformed"
+    | _, _, _, _, _ => err "malformed"
+  | some "accumulate" =>
+    match (field? req "calls").bind getArr? with
+    | some arr =>
+      let call? (j : Json) : Option (Nat × Rat) := do
+        let a ← getArr? j
+        if a.size != 2 then none else
+        pure (← getNat? a[0]!, ← ratOfJson? a[1]!)
+      match arr.toList.mapM call? with
+      | some calls =>
+        let (st, rets) := accumulateAll [] calls
+        let nets := (calls.map (·.1)).eraseDups.mergeSort (· ≤ ·)
+        Json.mkObj [("returns", Json.arr (rets.map ratToJson).toArray),
+                    ("state", Json.arr (nets.map fun k => Json.arr #[ofNat k, ratToJson (st.get k)]).toArray)]
+      | none => err "malformed"
+    | none => err "malformed"
+  | _ => err "bad-op"
 
 end AFV.Driver.C30
